@@ -146,6 +146,51 @@ def _one_load(version, tmp, ext, main_bytes, bak_bytes, expect, stats, case, lab
         del fake
 
 
+def interrupted_save_control(version, tmp, ext, main_data, s_main, case, stats):
+    """The damaged configuration is produced by the library itself: a save through a symbolically linked
+    persistence file is cut before each of its renames / removes; start-up must then find the backup the save
+    wrote (or the new file) - never an empty network."""
+    from vf import faultfs
+
+    layout = {os.path.join("store", f"net.{ext}"): main_data, f"net.{ext}": ("link", os.path.join("store", f"net.{ext}"))}
+    path = os.path.join(tmp, f"net.{ext}")
+
+    def saver():
+        persist.restore(tmp, layout)
+        with persist.TimerPatch():
+            drv = drive.Driver(version, "sync", persistence=True, persistence_file=path)
+            drv.gw.tasks.persistence.safe_load_sensors()
+        drv.line("9;255;0;0;17;2.0")
+        drv.gw.tasks.persistence.need_save = True
+        return drv
+
+    drv = saver()
+    s_new = drive.typed(drive.projection(drv.gw))
+    with faultfs.Layer() as probe:
+        drv.gw.tasks.persistence.save_sensors()
+    cuts = [k for k, (kind, _name, _extra) in enumerate(probe.trace) if kind in ("rename", "remove")]
+    for k in cuts:
+        drv = saver()
+        with faultfs.Layer(faultfs.FaultPlan(k, "crash_before")):
+            try:
+                drv.gw.tasks.persistence.save_sensors()
+            except faultfs.Crash:
+                pass
+        label = f"symlinked file, the library's own save cut before op {k} ({probe.trace[k][0]} {probe.trace[k][1]})"
+        with persist.TimerPatch():
+            fresh = drive.Driver(version, "sync", persistence=True, persistence_file=path)
+            try:
+                fresh.gw.start_persistence()
+            except Exception as exc:  # pylint: disable=broad-except
+                raise Violation(f"startup_raises.{ext}.{type(exc).__name__}", dict(case, damage=label), f"[{ext}, {label}]: start-up raised {type(exc).__name__}: {exc}") from exc
+        got = drive.typed(drive.projection(fresh.gw))
+        if got not in (s_main, s_new):
+            raise Violation(f"wrong_state_loaded.{ext}", dict(case, damage=label), f"[{ext}, {label}]: start-up found neither the backed-up nor the new state: {first_diff(s_main, got)} (files: {sorted(persist.listing(tmp))})")
+        if stats is not None:
+            stats.evaluations += 1
+    persist.restore(tmp, {})
+
+
 def check_case(case, stats=None, only=None, part=(0, 1), collect=None):
     """Enumerate the damage matrix of one generated file pair.
 
@@ -177,6 +222,9 @@ def check_case(case, stats=None, only=None, part=(0, 1), collect=None):
             return
         empty = drive.typed({})
         state_key = common.chash([case["main"], case["bak"], ext])
+        if only is not None and only.startswith("symlinked file"):
+            interrupted_save_control(version, tmp, ext, main_data, s_main, case, stats)
+            return
         if part[0] == 0 and only is None:  # controls
             guarded(version, tmp, ext, main_data, None, s_main, stats, case, "main intact, no backup", "start_persistence")
             guarded(version, tmp, ext, main_data, bak_data, s_main, stats, case, "main intact, backup intact", "safe_load_sensors")
@@ -186,6 +234,12 @@ def check_case(case, stats=None, only=None, part=(0, 1), collect=None):
             guarded(version, tmp, ext, None, bak_data, s_bak, stats, case, "main missing, backup intact", "async_start_persistence", "bare")
             guarded(version, tmp, ext, main_data[: len(main_data) // 2], bak_data, s_bak, stats, case, "main trunc@half, backup intact", "async_start_persistence")
             guarded(version, tmp, ext, main_data, bak_data, s_main, stats, case, "main intact, backup intact", "async_start_persistence")
+            try:
+                interrupted_save_control(version, tmp, ext, main_data, s_main, case, stats)
+            except Violation as v:
+                if collect is None:
+                    raise
+                collect.append(v)
             if stats is not None:
                 stats.evaluations += 8
         backups = [("absent", None), ("intact", bak_data)] + [("bak-" + lab, d) for lab, d in damage_variants(bak_data, sampled=True)]
